@@ -713,7 +713,7 @@ def r20_12(ctx, counts) -> RuleResult:
         'it ("2" under union(xs:decimal-derived, xs:int) is what the declaration order says). In '
         'elementpath/decoder.py a list of candidate prototypes/decoders that a `for` loop tries in '
         'turn is therefore not reordered or shortened: no insert/pop/remove/sort/reverse/append '
-        'call, subscript store or del on the iterated name anywhere in the function. A '
+        'call, subscript store or del on the iterated name inside a loop that iterates it. A '
         'move-to-front of the member that fitted the previous item makes the type of a list '
         'item depend on its neighbours.')
     mod = model.modules.get('elementpath.decoder')
@@ -735,7 +735,17 @@ def r20_12(ctx, counts) -> RuleResult:
             continue
         n += 1
         bad = []
-        for x in walk_local(f.node):
+        # only what happens while the list is being iterated: the nodes nested in a loop over it
+        inside: list[ast.AST] = []
+        for lp in walk_local(f.node):
+            if isinstance(lp, ast.For):
+                it = lp.iter
+                if isinstance(it, ast.Call) and dotted(it.func) in ('enumerate', 'reversed', 'iter') \
+                        and it.args:
+                    it = it.args[0]
+                if isinstance(it, ast.Name) and it.id in iterated:
+                    inside += [y for st in lp.body + lp.orelse for y in ast.walk(st)]
+        for x in inside:
             if isinstance(x, ast.Call) and isinstance(x.func, ast.Attribute) \
                     and x.func.attr in muts and isinstance(x.func.value, ast.Name) \
                     and x.func.value.id in iterated:
